@@ -1,7 +1,9 @@
 """Implementation adapter for C14: answers the request lines of ocaml/c14_driver.ml from /repo (public API only:
 encoding.change_base / to_bytes, Mnemonic(lang).to_mnemonic / to_entropy / to_seed / generate / detect_language /
-word / wordlist, HDKey.from_passphrase).  Sentences travel as index lists; words are looked up in the
-repository's own word-list files, read here independently of the Mnemonic class."""
+sanitize_mnemonic / word / wordlist, HDKey.from_passphrase), with every public argument settable.
+Sentences travel as index lists (mapped through the FROZEN BIP39 word lists of /verif/corpus/C14/wordlist, never
+through the repository's files) or as literal text (code points).  `seq` runs several calls in this one process
+on one Mnemonic object per language."""
 import sys, os, logging, unicodedata
 sys.path.insert(0, os.path.dirname(os.path.abspath(__file__)))
 from common_impl import hx, unhx, serve
@@ -11,11 +13,15 @@ from bitcoinlib.encoding import change_base, to_bytes
 from bitcoinlib.mnemonic import Mnemonic
 from bitcoinlib.keys import HDKey
 
-WLDIR = os.path.join(os.path.dirname(bitcoinlib.__file__), 'wordlist')
+WLDIR = os.path.join(os.path.dirname(os.path.dirname(os.path.dirname(os.path.abspath(__file__)))), 'corpus', 'C14',
+                     'wordlist')
 _WL, _IDX, _MN = {}, {}, {}
+FRESH = [False]          # inside a `seq ... fresh` session: a new Mnemonic object for every call
 
 
 def wl(lang):
+    if lang == 'default':
+        lang = 'english'
     if lang not in _WL:
         with open(os.path.join(WLDIR, lang + '.txt'), encoding='utf8') as f:
             _WL[lang] = [w.strip() for w in f.read().split('\n') if w.strip()]
@@ -24,9 +30,20 @@ def wl(lang):
 
 
 def mn(lang):
+    if FRESH[0]:
+        return Mnemonic() if lang == 'default' else Mnemonic(lang)
     if lang not in _MN:
-        _MN[lang] = Mnemonic(lang)
+        _MN[lang] = Mnemonic() if lang == 'default' else Mnemonic(lang)
     return _MN[lang]
+
+
+def cps(s):
+    return ','.join('%x' % ord(c) for c in s) if s else '-'
+
+
+def as_arg(form, s):
+    """a text argument as str ('s') or as its UTF-8 bytes ('b')"""
+    return s.encode('utf8') if form == 'b' else s
 
 
 def zs(t):
@@ -58,6 +75,8 @@ def sentence(lang, form, idx, sub=None):
 
 def idx_of_sentence(lang, s):
     wl(lang)
+    if lang == 'default':
+        lang = 'english'
     ws = s.split(' ')
     out = []
     for w in ws:
@@ -119,13 +138,81 @@ def dispatch(t):
             return key.private_hex + key.chain.hex()
         if k == 'detect':      # detect <lang> <idx list>
             return Mnemonic.detect_language(sentence(t[1], 'plain', zs(t[2])))
-        if k == 'wlfacts':     # the list the class serves: length, distinct, NFKD-normal, equal to the file, word(i)
+        if k == 'wlfacts':     # the list the class serves: length, distinct, NFKD-normal, equal to the FROZEN list, word(i)
             m = Mnemonic(t[1])
             ws = m.wordlist()
             nf = all(unicodedata.normalize('NFKD', w) == w for w in ws)
-            same = ws == wl(t[1]) and all(m.word(i) == ws[i] for i in (0, 1, 1023, 2046, 2047))
+            same = ws == wl(t[1]) and all(m.word(i) == wl(t[1])[i] for i in range(2048))
             clean = all(w and not any(c.isspace() for c in w) for w in ws)
-            return '%d %d %d %d %d' % (len(ws), len(set(ws)), nf, same, clean)
+            r = '%d %d %d %d %d' % (len(ws), len(set(ws)), nf, same, clean)
+            if not same:
+                r += ' first-difference-at-%s' % next((i for i, (a, b) in enumerate(zip(ws, wl(t[1]))) if a != b), 'end')
+            return r
+        if k == 'wlfiles':     # the word-list files the library ships
+            d = os.path.join(os.path.dirname(bitcoinlib.__file__), 'wordlist')
+            return ','.join(sorted(f[:-4] for f in os.listdir(d) if f.endswith('.txt')))
+        # ---- literal-text requests with every switch explicit
+        if k == 'tmn':         # tmn <lang> <add_checksum> <check_on_curve> <b|h> <entropy hex>
+            data = t[5] if t[4] == 'h' else unhx(t[5])
+            return idx_of_sentence(t[1], mn(t[1]).to_mnemonic(data, add_checksum=t[2] == '1', check_on_curve=t[3] == '1'))
+        if k == 'tgen':        # tgen <lang> <strength> <add_checksum|d> <urandom hex>     ('d' = argument left out)
+            data = unhx(t[4])
+            asked = []
+            real = os.urandom
+
+            def fake(n):
+                asked.append(n)
+                return data[:n] if len(data) >= n >= 0 else real(n)
+            os.urandom = fake
+            try:
+                if t[3] == 'd':
+                    s = mn(t[1]).generate(int(t[2]))
+                else:
+                    s = mn(t[1]).generate(int(t[2]), add_checksum=t[3] == '1')
+            finally:
+                os.urandom = real
+            return idx_of_sentence(t[1], s) + ' asked=' + ','.join(str(n) for n in asked)
+        if k == 'tent':        # tent <lang> <includes_checksum|d> <s|b> <text>
+            arg = as_arg(t[3], text(t[4]))
+            if t[2] == 'd':
+                return hx(mn(t[1]).to_entropy(arg))
+            return hx(mn(t[1]).to_entropy(arg, includes_checksum=t[2] == '1'))
+        if k == 'tseed':       # tseed <lang> <validate|d> <s|b> <s|b> <text> <password>
+            arg, pw = as_arg(t[3], text(t[5])), as_arg(t[4], text(t[6]))
+            if t[2] == 'd':
+                return hx(mn(t[1]).to_seed(arg, pw))
+            return hx(mn(t[1]).to_seed(arg, pw, validate=t[2] == '1'))
+        if k == 'tsan':        # tsan <lang> <s|b> <text>
+            return 'S ' + cps(mn(t[1]).sanitize_mnemonic(as_arg(t[2], text(t[3]))))
+        if k == 'tdet':        # tdet <lang|static> <s|b> <text>
+            f = Mnemonic.detect_language if t[1] == 'static' else mn(t[1]).detect_language
+            return f(as_arg(t[2], text(t[3])))
+        if k == 'thd':         # thd <lang of the sentence> <text> <password> <network> <key_type> <compressed> <witness_type> <multisig>
+            if t[4] == 'd':    # only the two positional arguments
+                key = HDKey.from_passphrase(text(t[2]), text(t[3]))
+            else:
+                key = HDKey.from_passphrase(text(t[2]), password=text(t[3]), network=t[4], key_type=t[5],
+                                            compressed=t[6] == '1', witness_type=t[7], multisig=t[8] == '1')
+            try:               # the serialisation is C03's business; some network / witness-type pairs have no prefix
+                wif = key.wif(is_private=True) if key.key_type == 'bip32' else '-'
+            except Exception as ex:
+                wif = 'nowif:' + type(ex).__name__
+            return '%s%s %s %s %d %s %d %s' % (key.private_hex, key.chain.hex(), key.network.name, key.key_type,
+                                               key.compressed, key.witness_type, key.multisig, wif)
+        if k == 'seq':         # seq <cached|fresh> sub-request | sub-request | ...   (one process, one object per language)
+            subs, cur = [], []
+            for x in t[2:]:
+                if x == '|':
+                    subs.append(cur)
+                    cur = []
+                else:
+                    cur.append(x)
+            subs.append(cur)
+            FRESH[0] = t[1] == 'fresh'
+            try:
+                return ' | '.join(dispatch(q) if q and q[0] != 'seq' else 'BADREQ' for q in subs)
+            finally:
+                FRESH[0] = False
     except RecursionError:
         raise
     except BaseException as ex:
